@@ -345,4 +345,183 @@ theorem startProduce_rv {s s' : St} {c : Nat} (h : startProduce s c = some s') :
   obtain ⟨_, _, _, hp, _, hn, rfl⟩ := h
   refine ⟨hp, by simpa using hn, rfl⟩
 
+/-! ### every operation: the index stays, or moves by exactly one settlement -/
+
+/-- what an operation can do to the index and the last reward block -/
+inductive RpsMove (s s' : St) : Prop
+  | same (h1 : s'.rps = s.rps) (h2 : s'.lastBlock = s.lastBlock)
+  | settled (h1 : s'.rps = s.rps + rpsIncr s)
+      (h2 : s'.lastBlock = if s.lastBlock < s.block then s.block else s.lastBlock)
+  | started (h1 : s'.rps = s.rps) (h2 : s'.lastBlock = s.block)
+
+theorem RpsMove.of_rv {s s' : St} (h : rv s' = rv s) : RpsMove s s' :=
+  .same (congrArg RV.rps h) (congrArg RV.lastBlock h)
+
+theorem step_rpsMove {s s' : St} {op : Op} {o : Out} (h : step s op = some (s', o)) : RpsMove s s' := by
+  cases op <;> simp only [step, known] at h
+  case enter c oo a e =>
+    split at h <;> [skip; exact absurd h (by simp)]
+    simp only [enterFarm, Option.bind_eq_bind, Option.bind_eq_some_iff] at h
+    obtain ⟨_, _, h⟩ := h
+    have e := enterCore_rv h
+    exact .settled (congrArg RV.rps e) (congrArg RV.lastBlock e)
+  case enterOB c u a e =>
+    split at h <;> [skip; exact absurd h (by simp)]
+    simp only [enterFarmOnBehalf, Option.bind_eq_bind, Option.bind_eq_some_iff] at h
+    obtain ⟨_, _, _, _, h⟩ := h
+    have e := enterCore_rv h
+    exact .settled (congrArg RV.rps e) (congrArg RV.lastBlock e)
+  case claim c oo p =>
+    split at h <;> [skip; exact absurd h (by simp)]
+    simp only [claimRewards, Option.bind_eq_bind, Option.bind_eq_some_iff] at h
+    obtain ⟨_, _, h⟩ := h
+    obtain ⟨_, _, _, _, _, _, _, e⟩ := claimCore_rv h
+    exact .settled (congrArg RV.rps e) (congrArg RV.lastBlock e)
+  case claimOB c p =>
+    split at h <;> [skip; exact absurd h (by simp)]
+    simp only [claimRewardsOnBehalf, Option.bind_eq_bind, Option.bind_eq_some_iff] at h
+    obtain ⟨_, _, _, _, _, _, h⟩ := h
+    obtain ⟨_, _, _, _, _, _, _, e⟩ := claimCore_rv h
+    exact .settled (congrArg RV.rps e) (congrArg RV.lastBlock e)
+  case compound c oo p =>
+    split at h <;> [skip; exact absurd h (by simp)]
+    simp only [compoundRewards, Option.bind_eq_bind, Option.bind_eq_some_iff, req_eq_some] at h
+    obtain ⟨_, hk, _, _, h⟩ := h
+    obtain ⟨_, _, _, _, _, _, _, e⟩ := claimCore_rv h
+    exact .settled (congrArg RV.rps e) (congrArg RV.lastBlock e)
+  case exit c oo n a =>
+    split at h <;> [skip; exact absurd h (by simp)]
+    obtain ⟨_, _, _, _, _, e⟩ := exitFarm_rv h
+    exact .settled (congrArg RV.rps e) (congrArg RV.lastBlock e)
+  case merge c oo p =>
+    split at h <;> [skip; exact absurd h (by simp)]
+    exact .of_rv (mergeFarmTokens_rv h)
+  case claimBoosted c u =>
+    split at h <;> [skip; exact absurd h (by simp)]
+    have e := claimBoostedRewards_rv h
+    exact .settled (congrArg RV.rps e) (congrArg RV.lastBlock e)
+  case transfer a b n x =>
+    split at h <;> [skip; exact absurd h (by simp)]
+    split at h <;> [skip; exact absurd h (by simp)]
+    simp only [noOut, Option.map_eq_some_iff, Prod.mk.injEq] at h
+    obtain ⟨s1, h1, rfl, _⟩ := h
+    simp only [transfer, Option.bind_eq_bind, Option.bind_eq_some_iff, req_eq_some, sub?_eq_some,
+      Option.pure_def, Option.some.injEq] at h1
+    obtain ⟨_, _, _, _, _, _, _, _, rfl⟩ := h1
+    exact .of_rv rfl
+  case setEnergy u a l t =>
+    simp only [Option.some.injEq, Prod.mk.injEq] at h
+    obtain ⟨rfl, _⟩ := h
+    exact .of_rv rfl
+  case updateEnergy u =>
+    simp only [noOut, Option.map_eq_some_iff, Prod.mk.injEq] at h
+    obtain ⟨s1, h1, rfl, _⟩ := h
+    simp only [updateEnergyForUser, Option.bind_eq_bind, Option.bind_eq_some_iff, Option.pure_def,
+      Option.some.injEq] at h1
+    obtain ⟨_, _, _, _, rfl⟩ := h1
+    exact .of_rv rfl
+  case setPerBlock c x =>
+    simp only [noOut, Option.map_eq_some_iff, Prod.mk.injEq] at h
+    obtain ⟨s1, h1, rfl, _⟩ := h
+    obtain ⟨_, e⟩ := setPerBlock_rv h1
+    exact .settled (congrArg RV.rps e) (congrArg RV.lastBlock e)
+  case startProduce c =>
+    simp only [noOut, Option.map_eq_some_iff, Prod.mk.injEq] at h
+    obtain ⟨s1, h1, rfl, _⟩ := h
+    obtain ⟨_, _, e⟩ := startProduce_rv h1
+    exact .started (congrArg RV.rps e) (congrArg RV.lastBlock e)
+  case endProduce c =>
+    simp only [noOut, Option.map_eq_some_iff, Prod.mk.injEq] at h
+    obtain ⟨s1, h1, rfl, _⟩ := h
+    have e := endProduce_rv h1
+    exact .settled (congrArg RV.rps e) (congrArg RV.lastBlock e)
+  case setPct c p =>
+    simp only [noOut, Option.map_eq_some_iff, Prod.mk.injEq] at h
+    obtain ⟨s1, h1, rfl, _⟩ := h
+    obtain ⟨_, e⟩ := setPct_rv h1
+    exact .settled (congrArg RV.rps e) (congrArg RV.lastBlock e)
+  case setFactors c f =>
+    simp only [noOut, Option.map_eq_some_iff, Prod.mk.injEq] at h
+    obtain ⟨s1, h1, rfl, _⟩ := h
+    simp only [setFactors, Option.bind_eq_bind, Option.bind_eq_some_iff, Option.pure_def] at h1
+    obtain ⟨_, _, _, _, W, _, h1⟩ := h1
+    split at h1
+    · simp only [Option.bind_eq_some_iff, Option.some.injEq] at h1
+      obtain ⟨_, _, rfl⟩ := h1
+      exact .of_rv rfl
+    · simp only [Option.some.injEq] at h1
+      subst h1
+      exact .of_rv rfl
+  case collect c =>
+    simp only [noOut, Option.map_eq_some_iff, Prod.mk.injEq] at h
+    obtain ⟨s1, h1, rfl, _⟩ := h
+    simp only [collectUndistributed, Option.bind_eq_bind, Option.bind_eq_some_iff, Option.pure_def,
+      req_eq_some] at h1
+    obtain ⟨_, _, W, _, _, _, h1⟩ := h1
+    split at h1 <;> simp only [Option.some.injEq] at h1 <;> subst h1 <;> exact .of_rv rfl
+  case pause c =>
+    simp only [noOut, Option.map_eq_some_iff, Prod.mk.injEq] at h
+    obtain ⟨s1, h1, rfl, _⟩ := h
+    simp only [setActive, Option.bind_eq_bind, Option.bind_eq_some_iff, Option.pure_def,
+      Option.some.injEq] at h1
+    obtain ⟨_, _, rfl⟩ := h1
+    exact .of_rv rfl
+  case resume c =>
+    simp only [noOut, Option.map_eq_some_iff, Prod.mk.injEq] at h
+    obtain ⟨s1, h1, rfl, _⟩ := h
+    simp only [setActive, Option.bind_eq_bind, Option.bind_eq_some_iff, Option.pure_def,
+      Option.some.injEq] at h1
+    obtain ⟨_, _, rfl⟩ := h1
+    exact .of_rv rfl
+  case setPenalty c p =>
+    simp only [noOut, Option.map_eq_some_iff, Prod.mk.injEq] at h
+    obtain ⟨s1, h1, rfl, _⟩ := h
+    simp only [setPenalty, Option.bind_eq_bind, Option.bind_eq_some_iff, Option.pure_def,
+      Option.some.injEq] at h1
+    obtain ⟨_, _, _, _, rfl⟩ := h1
+    exact .of_rv rfl
+  case setMinEpochs c n =>
+    simp only [noOut, Option.map_eq_some_iff, Prod.mk.injEq] at h
+    obtain ⟨s1, h1, rfl, _⟩ := h
+    simp only [setMinEpochs, Option.bind_eq_bind, Option.bind_eq_some_iff, Option.pure_def,
+      Option.some.injEq] at h1
+    obtain ⟨_, _, _, _, rfl⟩ := h1
+    exact .of_rv rfl
+  case hubWhitelist u a =>
+    split at h
+    · cases h
+    · simp only [Option.some.injEq, Prod.mk.injEq] at h; obtain ⟨rfl, _⟩ := h; exact .of_rv rfl
+  case hubRemove u a =>
+    split at h
+    · simp only [Option.some.injEq, Prod.mk.injEq] at h; obtain ⟨rfl, _⟩ := h; exact .of_rv rfl
+    · cases h
+  case hubBlacklist a =>
+    simp only [Option.some.injEq, Prod.mk.injEq] at h; obtain ⟨rfl, _⟩ := h; exact .of_rv rfl
+  case scWhitelist a =>
+    split at h
+    · cases h
+    · simp only [Option.some.injEq, Prod.mk.injEq] at h; obtain ⟨rfl, _⟩ := h; exact .of_rv rfl
+  case scUnwhitelist a =>
+    split at h
+    · simp only [Option.some.injEq, Prod.mk.injEq] at h; obtain ⟨rfl, _⟩ := h; exact .of_rv rfl
+    · cases h
+  case advance b e =>
+    split at h
+    · simp only [Option.some.injEq, Prod.mk.injEq] at h; obtain ⟨rfl, _⟩ := h; exact .same rfl rfl
+    · cases h
+  case bad => cases h
+
+theorem step_rps_mono {s s' : St} {op : Op} {o : Out} (h : step s op = some (s', o)) : s.rps ≤ s'.rps := by
+  rcases step_rpsMove h with ⟨h1, _⟩ | ⟨h1, _⟩ | ⟨h1, _⟩ <;> omega
+
+theorem run_rps_mono (ops : List Op) (s : St) : s.rps ≤ (run s ops).rps := by
+  induction ops generalizing s with
+  | nil => exact Nat.le_refl _
+  | cons op rest ih =>
+    simp only [run, List.foldl_cons]
+    cases hs : step s op with
+    | none => exact ih s
+    | some r =>
+      exact Nat.le_trans (step_rps_mono (show step s op = some (r.1, r.2) from hs)) (ih r.1)
+
 end Mx.Farm
